@@ -187,10 +187,11 @@ def parse_item_block(header, body_lines, tmpl_path, first_line):
                     n, _, r3 = r2.partition(" ")
                     spec.ghosts.append((where, int(n), 1, r3.strip()))
                 elif where in ("after", "before"):
-                    m = re.match(_STR + r"\s*(?:nth\s+(\d+))?\s*(.*)$", r2, re.S)
+                    m = re.match(_STR + r"\s*(?:nth\s+([\d,]+))?\s*(.*)$", r2, re.S)
                     if not m:
                         raise TemplateError("bad ghost anchor")
-                    spec.ghosts.append((where, _unq(m.group(1)), int(m.group(2) or 1), m.group(3).strip()))
+                    for nn in (m.group(2) or "1").split(","):
+                        spec.ghosts.append((where, _unq(m.group(1)), int(nn), m.group(3).strip()))
                 else:
                     raise TemplateError(f"unknown ghost position {where}")
             elif word == "rewrite":
